@@ -6,36 +6,6 @@ import GoluaVerif.Proofs.C17Reader
 namespace GoluaVerif.Model.Pack
 open GoluaVerif
 
-/-- the invariant of the format reader under `noDanglingX` -/
-def Inv (ao : Bool) (fmt : Bytes) : Prop :=
-  noDanglingX fmt = true ∧ (ao = true → ∃ d t, fmt = d :: t ∧ alignable d = true)
-
-theorem inv_head (ao : Bool) (c : UInt8) (rest : Bytes) (h : Inv ao (c :: rest)) :
-    ao = false ∨ alignable c = true := by
-  cases ao with
-  | false => exact .inl rfl
-  | true =>
-    obtain ⟨d, t, he, ha⟩ := h.2 rfl
-    injection he with h1 h2
-    subst h1
-    exact .inr ha
-
-theorem inv_step (rd rd' : Rd) (c : UInt8) (rest rest' : Bytes) (opt : Opt)
-    (hi : Inv rd.alignOnly (c :: rest)) (h : readOpt .pack rd c rest = .ok (opt, rd', rest')) :
-    Inv rd'.alignOnly rest' := by
-  refine ⟨readOpt_ndx _ _ _ _ _ _ _ h (noDanglingX_tail c rest hi.1), ?_⟩
-  intro hao
-  rcases readOpt_ao rd rd' c rest rest' opt h hao with ⟨hk, hr⟩ | ⟨h1, h2⟩
-  · have h0 := hi.1
-    simp only [noDanglingX, hk, if_true, Bool.and_eq_true] at h0
-    subst hr
-    cases rest' with
-    | nil => simp at h0
-    | cons d t => exact ⟨d, t, rfl, by simpa using h0.1⟩
-  · rcases inv_head _ _ _ hi with h3 | h3
-    · rw [h1] at h3; exact absurd h3 (by simp)
-    · rw [h2] at h3; exact absurd h3 (by simp)
-
 theorem consOut_ok (w bs : Bytes) (vs : List Val) (r : Except Err (Bytes × List Val))
     (h : consOut w r = .ok (bs, vs)) : ∃ bs1, r = .ok (bs1, vs) ∧ bs = w ++ bs1 := by
   cases r with
@@ -47,26 +17,26 @@ theorem consOut_ok (w bs : Bytes) (vs : List Val) (r : Except Err (Bytes × List
 
 /-- the whole loop: what `packLoop` writes from offset `len` on, `unpackLoop` reads back from index `len` -/
 theorem loop_rt : ∀ (fuel : Nat) (rd : Rd) (fmt : Bytes) (len : Nat) (vs : List Val) (bs : Bytes) (vs' : List Val),
-    Inv rd.alignOnly fmt → exactLoop fuel rd fmt vs = true → packLoop fuel rd fmt len vs = .ok (bs, vs') →
+    exactLoop fuel rd fmt vs = true → packLoop fuel rd fmt len vs = .ok (bs, vs') →
     ∀ post, unpackLoop fuel rd fmt len (bs ++ post) = .ok (vs, len + bs.length, post) := by
   intro fuel
   induction fuel with
-  | zero => intro rd fmt len vs bs vs' _ hx; simp [exactLoop] at hx
+  | zero => intro rd fmt len vs bs vs' hx; simp [exactLoop] at hx
   | succ fuel ih =>
-    intro rd fmt len vs bs vs' hi hx hp post
+    intro rd fmt len vs bs vs' hx hp post
     cases fmt with
     | nil =>
-      have hao : rd.alignOnly = false := by
-        cases h : rd.alignOnly with
-        | false => rfl
-        | true => obtain ⟨d, t, he, _⟩ := hi.2 h; simp at he
-      simp only [packLoop, hao, Bool.false_eq_true, if_false, Except.ok.injEq, Prod.mk.injEq] at hp
-      simp only [exactLoop, List.isEmpty_iff] at hx
-      subst hx
-      rw [← hp.1]
-      simp [unpackLoop, hao]
+      simp only [packLoop] at hp
+      split at hp
+      · simp at hp
+      · rename_i hao
+        simp only [Except.ok.injEq, Prod.mk.injEq] at hp
+        simp only [exactLoop, List.isEmpty_iff] at hx
+        subst hx
+        rw [← hp.1]
+        simp [unpackLoop, hao]
     | cons c rest =>
-      have hu := readOpt_unpack_eq rd c rest (inv_head _ _ _ hi)
+      have hu := readOpt_unpack_eq rd c rest
       unfold packLoop at hp
       unfold exactLoop at hx
       unfold unpackLoop
@@ -75,17 +45,15 @@ theorem loop_rt : ∀ (fuel : Nat) (rd : Rd) (fmt : Bytes) (len : Nat) (vs : Lis
       | error e => simp [hr] at hp
       | ok r =>
         obtain ⟨opt, rd', rest'⟩ := r
-        have hi' := inv_step rd rd' c rest rest' opt hi hr
         simp only [hr] at hp hx ⊢
         cases opt with
-        | nop => exact ih rd' rest' len vs bs vs' hi' hx hp post
+        | nop => exact ih rd' rest' len vs bs vs' hx hp post
         | item al ao body =>
           simp only at hp hx ⊢
           cases ha : alignPad rd true al len with
           | error e => simp [ha] at hp
           | ok pad =>
             simp only [ha] at hp
-            rw [alignPad_nocheck rd al len pad ha]
             simp only
             cases ao with
             | true =>
@@ -94,7 +62,7 @@ theorem loop_rt : ∀ (fuel : Nat) (rd : Rd) (fmt : Bytes) (len : Nat) (vs : Lis
               subst hbs
               rw [List.append_assoc, takeN_append _ _ _ (zeros_length pad)]
               simp only [if_true]
-              have := ih rd' rest' (len + pad) vs bs1 vs' hi' hx hb1 post
+              have := ih rd' rest' (len + pad) vs bs1 vs' hx hb1 post
               rw [this]
               simp [zeros_length]; omega
             | false =>
@@ -114,7 +82,7 @@ theorem loop_rt : ∀ (fuel : Nat) (rd : Rd) (fmt : Bytes) (len : Nat) (vs : Lis
                   simp only [packBody, Except.ok.injEq, Prod.mk.injEq] at hb
                   obtain ⟨hw, hv⟩ := hb
                   subst hw; subst hv
-                  have := ih rd' rest' (len + pad + 1) vs bs1 vs' hi' hx (by simpa using hb1) post
+                  have := ih rd' rest' (len + pad + 1) vs bs1 vs' hx (by simpa using hb1) post
                   simp only [unpackBody, List.cons_append, List.nil_append, takeN, List.length_cons]
                   simp only [show ¬ ((bs1 ++ post).length + 1 < 1) by omega, if_false, List.take, List.drop]
                   simp only [show len + pad + ((bs1 ++ post).length + 1 - (bs1 ++ post).length) = len + pad + 1 by omega]
@@ -130,7 +98,7 @@ theorem loop_rt : ∀ (fuel : Nat) (rd : Rd) (fmt : Bytes) (len : Nat) (vs : Lis
                     subst hv1
                     rw [hub]
                     simp only
-                    have := ih rd' rest' (len + pad + w.length) vs1 bs1 vs' hi' hx.2 hb1 post
+                    have := ih rd' rest' (len + pad + w.length) vs1 bs1 vs' hx.2 hb1 post
                     simp only [show len + pad + ((w ++ (bs1 ++ post)).length - (bs1 ++ post).length) = len + pad + w.length by
                       simp [List.length_append]]
                     rw [this]
